@@ -408,6 +408,11 @@ fn family_neighbours() -> Vec<Desc> {
     add("unknown-protocol", "unknown listener protocol", &|d| d.listeners[0].proto = "quic");
     add("duplicate-listener-address", "two listeners on one address", &|d| d.listeners.push(Listener { proto: "tcp", addr: A_HTTP.into(), extra: vec![] }));
     add("h2-with-small-buffer", "h2 ALPN with buffer_size below 16393", &|d| d.top.push("buffer_size = 8192".into()));
+    add("h2-with-small-buffer-on-implied-listener", "h2 ALPN with buffer_size below 16393", &|d| {
+        // the HTTPS listener is not declared: the frontend carrying a certificate on its address implies it
+        d.top.push("buffer_size = 8192".into());
+        d.listeners.remove(1);
+    });
     add("hsts-on-http-listener", "hsts on a plain http listener", &|d| d.listeners[0].extra.push("[listeners.hsts]\nenabled = true\nmax_age = 10".into()));
     add("public-address-with-expect-proxy", "public_address with expect_proxy", &|d| {
         d.listeners[0].extra.push("public_address = \"10.0.0.1:80\"".into());
@@ -727,7 +732,7 @@ pub fn run(ctx: &Ctx) -> Coverage {
         evaluations: evals.load(Ordering::Relaxed),
         distinct_nontrivial: n,
         distinct_outcomes: cl.len() as u64,
-        rule: "generated TOML files: (structure) every subset of {http, https, tcp, udp} listeners x 0-2 clusters x protocol x 0-2 frontends (on declared listeners, on undeclared addresses, on listeners of the wrong protocol) x 0-2 backends; (options) every optional top-level / listener / cluster / frontend / backend field toggled on a base file (pairwise in the thorough tier); (scale) 1, 2, 100, 254, 255, 256, 257, 1000 backends / frontends / clusters / listeners; (neighbours) 19 constraint-violating files. Each accepted file must yield commands a fresh ConfigState accepts in full, the resulting state must contain exactly the declared objects, and reloading must change nothing; each violating file must be rejected at load".into(),
+        rule: "generated TOML files: (structure) every subset of {http, https, tcp, udp} listeners x 0-2 clusters x protocol x 0-2 frontends (on declared listeners, on undeclared addresses, on listeners of the wrong protocol) x 0-2 backends; (options) every optional top-level / listener / cluster / frontend / backend field toggled on a base file (pairwise in the thorough tier); (scale) 1, 2, 100, 254, 255, 256, 257, 1000 backends / frontends / clusters / listeners; (neighbours) 20 constraint-violating files. Each accepted file must yield commands a fresh ConfigState accepts in full, the resulting state must contain exactly the declared objects, and reloading must change nothing; each violating file must be rejected at load".into(),
         exhaustive: true,
         bound: json!({"files": n}),
         extra: json!({"load_outcomes": cl}),
